@@ -1424,7 +1424,7 @@ func runApply(c *kit.Ctx) {
 		return
 	}
 	c.End("")
-	n := c.N(1600, 40000)
+	n := c.N(1600, 16000)
 	for i := 0; i < n; i++ {
 		id := fmt.Sprintf("a%d", i)
 		if !c.Mine(i, id) {
